@@ -13,8 +13,18 @@ fn flow(challenge: PkceCodeChallenge, verifier: PkceCodeVerifier) -> (String, St
     // the challenge must reach the URL whatever response type the caller selected
     let mut first: Option<(String, String, String)> = None;
     let verifier_text = verifier.secret().clone();
-    for rt in [None, Some("code id_token"), Some("token")] {
-        let got = flow_one(challenge.clone(), PkceCodeVerifier::new(verifier_text.clone()), rt);
+    // the challenge as built, and after being parked in a session store (serialised and read back,
+    // once and twice): the same URL parameters must result
+    let parked = |c: &PkceCodeChallenge| -> PkceCodeChallenge { serde_json::from_str(&serde_json::to_string(c).unwrap()).unwrap() };
+    let variants: Vec<(Option<&str>, PkceCodeChallenge)> = vec![
+        (None, challenge.clone()),
+        (Some("code id_token"), challenge.clone()),
+        (Some("token"), challenge.clone()),
+        (None, parked(&challenge)),
+        (Some("code token"), parked(&parked(&challenge))),
+    ];
+    for (rt, ch) in variants {
+        let got = flow_one(ch, PkceCodeVerifier::new(verifier_text.clone()), rt);
         match &first {
             None => first = Some(got),
             Some(f) => {
